@@ -21,7 +21,7 @@ ID = "C15"
 MANIFEST = {
     "category": "exploration",
     "text": "Schedule exploration by generated-input search with a differential oracle: deep AHBs (up to 40/100 nodes) with >= 3 free-text data elements whose inputs are pairwise different and whose expressions are dense in format constraints x content evaluation results x a schedule of yield counts consumed by the harness's asynchronous format-constraint / requirement-constraint evaluators, hints provider and package resolver. For every free-text element that the run reports, its ValidationResultInContext must equal the result of validate_data_element_freetext on a fresh copy of that element alone (nothing yields; segment status taken from the whole run); the multiset of (format-constraint key, text seen) pairs logged during the whole run must equal the union of the pairs logged by the single runs, i.e. every constraint was evaluated against its own element's input. A drawn subset of the format-constraint methods are plain functions that read the documented context variable themselves; in the element's own run every such evaluation must have seen exactly the element's input. Every visited segment with several free-text elements is also validated through validate_segment under the same schedule, below the status its group received; its rows must equal those of the whole run. A third of the data elements have no discriminator (None) or share one; rows are attributed to elements by position. The same maus object is validated a second time; the rows of its free-text elements must equal those of the first validation. A seventh of the inputs are padded with blanks, line ends, NBSP or control characters or consist of nothing else. Independent oracle: for every reported free-text element whose deciding part uses the harness's constraints only, format_validation_fulfilled must equal the reference reading of that part (first fulfilled part, the attached constraints that take part, each judged by the pure constraint function on this element's input).",
-    "note": "Trusted: the schedule harness (vlib/sched.py); the format-constraint oracle function is pure in (key, text) and echoes the text, so a foreign input changes verdict or message. Interleavings are those of one asyncio event loop. Process configuration by shard (vlib/sut.py; recorded in replay files): plain / parse caches preheated beyond their size / warnings attributed to ahbicht raised as errors / logging fully enabled with every record rendered; one event loop per process or a new one per call; five process time zones; the hash seed is the shard number; namesakes of ahbicht's marshmallow schema classes are registered.",
+    "note": "Trusted: the schedule harness (vlib/sched.py); the format-constraint oracle function is pure in (key, text) and echoes the text, so a foreign input changes verdict or message. Interleavings are those of one asyncio event loop. Process configuration by shard (vlib/sut.py; recorded in replay files): plain / parse caches preheated beyond their size / warnings attributed to ahbicht raised as errors / logging fully enabled with every record rendered; one event loop per process or a new one per call; five process time zones; the hash seed is the shard number; namesakes of ahbicht's marshmallow schema classes are registered. Every registry of evaluators / providers / resolvers that the harness builds (sut.configure) also holds one of each kind that names no EDIFACT format and no format version; these must never be asked.",
     "technique": "property-based schedule exploration with a differential oracle (element inside the concurrent run vs the element alone) and a log invariant",
 }
 LEVEL = "exploration"
